@@ -633,8 +633,7 @@ func (c *Ctx) timeoutListInvariant(rRemoval, rEncoding, rAccum string) {
 		if !ok {
 			continue
 		}
-		o := core.CalleeObj(call)
-		if o == nil || o.Name() != "Unmarshal" || !strings.HasSuffix(core.CalleeName(call), "pb.TransactionRecord).Unmarshal") {
+		if !c.decodesType(call, "pb.TransactionRecord", 2) {
 			continue
 		}
 		if respEdges.Len() > 0 && outsideReceipt.Has(cl) {
